@@ -356,6 +356,7 @@ class LoggedFairLock(FairLock):
         self.name = name
         self._caller = "?"
         self.parked: set[str] = set()
+        self.holder: str | None = None
 
     def state(self) -> str:
         ws = ",".join(f"{w.owner}{'*' if w.is_set() else ''}" for w in (self._waiters or ()))
@@ -373,6 +374,7 @@ class LoggedFairLock(FairLock):
             self.trace.ev(f"{self.name}cancelled {t} post {self.state()}")
             raise
         self.parked.discard(t)
+        self.holder = t
         self.trace.ev(f"{self.name}acq {t} post {self.state()}")
 
     def release(self) -> None:
@@ -382,6 +384,7 @@ class LoggedFairLock(FairLock):
         except RuntimeError:
             self.trace.ev(f"{self.name}rel {t} error")
             raise
+        self.holder = None
         self.trace.ev(f"{self.name}rel {t} post {self.state()}")
 
 
@@ -395,6 +398,7 @@ class LoggedAsyncioLock(asyncio.Lock):
         self._callers: list[str] = []          # callers that have not returned yet, in call order
         self._owner_of: dict[int, str] = {}
         self.parked: set[str] = set()
+        self.holder: str | None = None
 
     def _tag(self) -> None:
         ws = list(self._waiters or ())
@@ -428,6 +432,7 @@ class LoggedAsyncioLock(asyncio.Lock):
             raise
         self._callers.remove(t)
         self.parked.discard(t)
+        self.holder = t
         self.trace.ev(f"{self.name}acq {t} post {self.state()}")
         return r
 
@@ -438,6 +443,7 @@ class LoggedAsyncioLock(asyncio.Lock):
         except RuntimeError:
             self.trace.ev(f"{self.name}rel {t} error")
             raise
+        self.holder = None
         self.trace.ev(f"{self.name}rel {t} post {self.state()}")
 
 
